@@ -812,6 +812,31 @@ fn main() {
 }
 "#;
 
+/// The closure `into_func` returns is an `impl Fn` that leaks its auto traits:
+/// as long as it is `Send` it is a handle that other threads call after every
+/// other owner is gone, and must keep the module alive like any handle.
+const PROBE_INTO_FUNC_SEND: &str = r#"
+use roto::{FileTree, Runtime};
+fn main() {
+    let rt = Runtime::new();
+    let src = "fn main(x: u32) -> u32 { let i = 0; let res = 0; while i < x { res = res + 2 * i + 1; i = i + 1; } res }";
+    let mut pkg = FileTree::test_file("p.roto", src, 0).compile(&rt).unwrap();
+    let f = pkg.get_function::<fn(u32) -> u32>("main").unwrap().into_func();
+    let (tx, rx) = std::sync::mpsc::channel::<()>();
+    let t = std::thread::spawn(move || {
+        rx.recv().unwrap();
+        let mut s = 0u64;
+        for x in 0..1000u32 { s += f(x) as u64; }
+        s
+    });
+    drop(pkg);
+    drop(rt);
+    tx.send(()).unwrap();
+    let s = t.join().unwrap();
+    println!("FINAL {}", s);
+}
+"#;
+
 struct ProbeResult {
     built: bool,
     diagnostics: String,
@@ -937,7 +962,27 @@ fn probes(repo: &Path, fn_bounds: Option<&str>, rep: &mut Report) {
     }
     rep.evaluations += 1;
     rep.class(format!("probe atomic_closure built={}", at.built));
-    rep.sample(json!({"probe": {"cell_closure": {"built": cell.built, "rejected_for_sync": sync_error, "output": cell.output.trim()},
+    // sum of x*x for x < 1000
+    const INTO_FUNC_SUM: u64 = 332_833_500;
+    let inf = run_probe(repo, "into_func_send", PROBE_INTO_FUNC_SEND);
+    rep.hist("rustc-probe", format!("into_func_send:{}", if inf.built { "accepted" } else { "rejected" }));
+    if !inf.built {
+        rep.violation(
+            "the closure returned by TypedFunc::into_func can no longer be moved to another thread (it stopped being Send: it no longer owns the handle, whose Send/Sync impls made it so)",
+            "into-func-closure-not-send",
+            json!({"kind": "probe", "program": "into_func_send", "diagnostics": inf.diagnostics.chars().take(1500).collect::<String>()}),
+        );
+    } else if final_count(&inf.output) != Some(INTO_FUNC_SUM) {
+        rep.violation(
+            "an into_func closure moved to another thread and called there after the package and the runtime were dropped died or returned wrong results",
+            "into-func-closure-dangles",
+            json!({"kind": "probe", "program": "into_func_send", "final": final_count(&inf.output), "expected": INTO_FUNC_SUM, "output": inf.output.chars().take(300).collect::<String>()}),
+        );
+    }
+    rep.evaluations += 1;
+    rep.class(format!("probe into_func_send built={}", inf.built));
+
+    rep.sample(json!({"probe": {"into_func_send": {"built": inf.built, "output": inf.output.trim()}, "cell_closure": {"built": cell.built, "rejected_for_sync": sync_error, "output": cell.output.trim()},
         "rc_constant": {"built": rc.built}, "atomic_closure": {"built": at.built, "output": at.output.trim()}},
         "model_admits_send_not_sync_closure": model_admits}));
 }
